@@ -94,3 +94,26 @@ where
         Ok(httparse::Status::Partial)
     }
 }
+
+/// Second-level environment stub: replaces `parser::try_parse_response::<N>` as a whole by the
+/// script (used where building the `http::Response` through hoot's glue is out of reach). The
+/// response is made with the same builder calls hoot's glue uses. Same script variables as above:
+/// kind 0 => Ok(None); 1 => Ok(Some((consumed, response with the script's status/version)));
+/// 2 => Err(HttpParseTooManyHeaders); 3 => Err(HttpParseFail).
+pub(crate) fn p_try_parse_response<const N: usize>(input: &[u8]) -> Result<Option<(usize, Response<()>)>, Error> {
+    let _ = input;
+    S_CALLS.fetch_add(1, Ordering::Relaxed);
+    S_SLOTS.store(N, Ordering::Relaxed);
+    match S_KIND.load(Ordering::Relaxed) {
+        0 => Ok(None),
+        1 => {
+            let status = StatusCode::from_u16(S_CODE.load(Ordering::Relaxed) as u16).unwrap();
+            let version = if S_VERSION.load(Ordering::Relaxed) == 1 { Version::HTTP_10 } else { Version::HTTP_11 };
+            // built exactly as hoot's glue builds it
+            let r = Response::builder().version(version).status(status).body(()).expect("a valid response");
+            Ok(Some((S_CONSUMED.load(Ordering::Relaxed), r)))
+        }
+        2 => Err(Error::HttpParseTooManyHeaders),
+        _ => Err(Error::HttpParseFail(String::new())),
+    }
+}
